@@ -36,9 +36,9 @@ struct state_t
    std::unordered_map<const Chunk *, size_t> index;                // chunk -> position in the .fin dump
    bool                                      rec = false;          // recording written code points
    std::vector<int>                          rec_chars;
-   FILE                                      *out_file      = nullptr;
-   FILE                                      *sp_file       = nullptr;
-   const char                                *last_rule     = "";
+   FILE                                      *out_file = nullptr;
+   FILE                                      *sp_file  = nullptr;
+   std::string                               last_rule;            // copied: two rule names are built in a local buffer
    size_t                                    last_rule_line = 0;
    int                                       raw_av         = -1;
    size_t                                    begin_idx      = 0;
@@ -320,7 +320,7 @@ inline void sp_record(const Chunk *pc, const Chunk *next, int av, int min_sp, si
    put_text(f, pc->GetStr());
    fputc(' ', f);
    put_text(f, next->GetStr());
-   fprintf(f, "\t%s\n", st().last_rule);
+   fprintf(f, "\t%s\n", st().last_rule.c_str());
 }
 
 
